@@ -30,6 +30,10 @@ struct Config {
     version: u8,
     prev: Prev,
     fileset: u8,
+    /// how the destination is named: 0 `dest.mpq`; 1 `dest.tmp`; 2 `archive.mpq.tmp` (names a writer's own
+    /// temporary-file scheme could collide with); 3 `link.mpq`, a symbolic link to `real/target.mpq`
+    #[serde(default)]
+    dest: u8,
 }
 
 #[derive(Clone, Debug, Serialize, Deserialize)]
@@ -163,8 +167,19 @@ fn trace_case(case: &Case) -> Value {
     let dir = engine::scratch("c12");
     let sandbox = dir.path().join("sbx");
     std::fs::create_dir_all(&sandbox).unwrap();
-    let dest = sandbox.join("dest.mpq");
-    let prev = match setup_prev(&case.cfg, &dest) {
+    let dest = sandbox.join(["dest.mpq", "dest.tmp", "archive.mpq.tmp", "link.mpq"][case.cfg.dest as usize % 4]);
+    // a symbolic link is created after the previous state exists at its target (writers replace links)
+    let real = if case.cfg.dest % 4 == 3 {
+        std::fs::create_dir_all(sandbox.join("real")).unwrap();
+        sandbox.join("real").join("target.mpq")
+    } else {
+        dest.clone()
+    };
+    let prev_r = setup_prev(&case.cfg, &real);
+    if case.cfg.dest % 4 == 3 {
+        std::os::unix::fs::symlink("real/target.mpq", &dest).unwrap();
+    }
+    let prev = match prev_r {
         Ok(p) => p,
         Err(e) => return json!({"setup_err": e}),
     };
@@ -252,10 +267,16 @@ fn configs() -> Vec<Config> {
     for version in 1..=4u8 {
         for prev in [Prev::Absent, Prev::Archive, Prev::Junk] {
             for fs in 0..3u8 {
-                v.push(Config { op: OpKind::Build, version, prev: prev.clone(), fileset: fs });
+                v.push(Config { op: OpKind::Build, version, prev: prev.clone(), fileset: fs, dest: 0 });
             }
         }
-        v.push(Config { op: OpKind::Compact, version, prev: Prev::Archive, fileset: 0 });
+        v.push(Config { op: OpKind::Compact, version, prev: Prev::Archive, fileset: 0, dest: 0 });
+        // destination names and kinds a writer's temporary-file scheme can trip over
+        for (dest, prev) in [(1u8, Prev::Archive), (2, Prev::Archive), (2, Prev::Absent), (3, Prev::Archive)] {
+            v.push(Config { op: OpKind::Build, version, prev, fileset: 0, dest });
+        }
+        v.push(Config { op: OpKind::Compact, version, prev: Prev::Archive, fileset: 0, dest: 3 });
+        v.push(Config { op: OpKind::Compact, version, prev: Prev::Archive, fileset: 0, dest: 1 });
     }
     v
 }
